@@ -218,7 +218,7 @@ func (i ctxSwapIcept) WrapStreamingHandler(next connect.StreamingHandlerFunc) co
 }
 
 func c15(run *ev.Run) int {
-	run.SetRule("instants = cancellation or deadline expiry before every operation of a bidi base program, before/between/after the operations of the typed unary, client-stream and server-stream APIs, and - triggered from a second goroutine once the operation has been blocked for 60 ms - inside a blocked Send (peer not reading), Receive (peer waiting; also mid-message with only part of an envelope delivered, mid-prefix with two of the five prefix bytes delivered, and while draining a message above the read limit), CloseAndReceive, unary call and CloseResponse; and inside the library: at the n-th time (n=1, thorough 1..3) the HTTP call reaches each of its 8 instrumented yield points (before the pipe write, closing the write side, before/after the HTTP round trip, after response validation, before a body read, before the drain in CloseResponse, before SetError closes the pipe), one case at a time; x 3 protocols x HTTP/1.1 + HTTP/2 x {cancel, deadline} x {the application's context, a context installed by a client interceptor}; handlers block on their own ctx.Done() so they are still running at the instant; plus calls a peer announces with a timeout of zero (every unit) while its own context is alive; oracle: every operation failing after the instant has code canceled / deadline_exceeded (Send may return an error wrapping io.EOF), Receive never ends cleanly and - called after an instant the program itself produced - never delivers a message, unary never succeeds, handler context done (HTTP/2), every op returns (watchdog); distinct by (HTTP version, protocol, kind, instant, mode)")
+	run.SetRule("instants = cancellation or deadline expiry before every operation of a bidi base program, before/between/after the operations of the typed unary, client-stream and server-stream APIs, and - triggered from a second goroutine once the operation has been blocked for 60 ms - inside a blocked Send (peer not reading), Receive (peer waiting; also mid-message with only part of an envelope delivered, mid-prefix with two of the five prefix bytes delivered, and while draining a message above the read limit; each of these also with a body decorator that returns its last byte together with the error), CloseAndReceive, unary call and CloseResponse; and inside the library: at the n-th time (n=1, thorough 1..3) the HTTP call reaches each of its 8 instrumented yield points (before the pipe write, closing the write side, before/after the HTTP round trip, after response validation, before a body read, before the drain in CloseResponse, before SetError closes the pipe), one case at a time; x 3 protocols x HTTP/1.1 + HTTP/2 x {cancel, deadline} x {the application's context, a context installed by a client interceptor}; handlers block on their own ctx.Done() so they are still running at the instant; plus calls a peer announces with a timeout of zero (every unit) while its own context is alive; oracle: every operation failing after the instant has code canceled / deadline_exceeded (Send may return an error wrapping io.EOF), Receive never ends cleanly and - called after an instant the program itself produced - never delivers a message, unary never succeeds, handler context done (HTTP/2), every op returns (watchdog); distinct by (HTTP version, protocol, kind, instant, mode)")
 	run.Assume("on HTTP/1.1 net/http propagates a client disconnect to the handler context only after the request body was read; the handler-context clause is enforced on HTTP/2 and counted when observed on HTTP/1.1")
 	reg := svc.NewRegistry()
 	hs := svc.Handlers(reg)
